@@ -96,9 +96,17 @@ def gen_cases(ctx):
     return cases
 
 
+def with_history(v):
+    """see harness/warm.py: the vector has been used (proxies created, methods called) and then changed in place"""
+    from harness import warm
+    if warm.ENABLED:
+        warm.vector_through_history(v)
+    return v
+
+
 def mkvec(unit, vals):
     import dataiter as di
-    return di.Vector.fast(np.array([np.datetime64("NaT") if v is None else np.datetime64(v) for v in vals], dtype=f"datetime64[{unit}]"))
+    return with_history(di.Vector.fast(np.array([np.datetime64("NaT") if v is None else np.datetime64(v) for v in vals], dtype=f"datetime64[{unit}]")))
 
 
 def canon(x):
@@ -162,7 +170,7 @@ def impl(case):
             back = s.dt.from_string(case["fmt"]) if via == "proxy" else dt.from_string(s, case["fmt"])
             res["back"] = canon_vec(di.Vector.fast(back))
         elif op == "strproxy":
-            v = di.Vector(case["vals"], str) if case["vals"] else di.Vector([], str)
+            v = with_history(di.Vector(case["vals"], str) if case["vals"] else di.Vector([], str))
             try:
                 ref = getattr(np.strings, case["f"])(np.array(case["vals"], dtype=v.dtype), *case["args"])
                 res["ref"] = [canon(x) for x in np.asarray(ref).tolist()]
@@ -176,7 +184,7 @@ def impl(case):
                 res["out"] = f"{type(e).__name__}: {e}"
                 res["is_vector"] = True
         else:
-            v = di.Vector(case["vals"], str) if case["vals"] else di.Vector([], str)
+            v = with_history(di.Vector(case["vals"], str) if case["vals"] else di.Vector([], str))
             f = case["f"]
             kw = {}
             if case.get("flags"):
